@@ -121,8 +121,9 @@ func runInt(w *vh.W, c *jcase) {
 		w.Fail(idx, "panic in integer codec: "+p, "")
 	}
 	decSummary(s)
-	t := fmt.Sprintf("CInt %s %s %s %s %s %s %s", u64s(s.Vals), optBytes(s.SB, s.SBOK), optBytes(s.BB, s.BBOK),
-		optU64s(s.DSS, s.DSSOK), optU64s(s.DBS, s.DBSOK), optU64s(s.DSB, s.DSBOK), optU64s(s.DBB, s.DBBOK))
+	var l lets
+	t := l.wrap(fmt.Sprintf("CInt %s %s %s %s %s %s %s", l.u64s(s.Vals), l.optBytes(s.SB, s.SBOK), l.optBytes(s.BB, s.BBOK),
+		l.optU64s(s.DSS, s.DSSOK), l.optU64s(s.DBS, s.DBSOK), l.optU64s(s.DSB, s.DSBOK), l.optU64s(s.DBB, s.DBBOK)))
 	w.Add(t, c, len(s.Vals) >= 2, "")
 	w.Count("kind", c.Kind)
 	w.Count(c.Kind+".len", lenClass(len(s.Vals)))
@@ -170,8 +171,9 @@ func runTime(w *vh.W, c *jcase) {
 		w.Fail(idx, "panic in timestamp codec: "+p, "")
 	}
 	decSummary(s)
-	t := fmt.Sprintf("CTime %s %s %s %s %s %s %s", u64s(s.Vals), optBytes(s.SB, s.SBOK), optBytes(s.BB, s.BBOK),
-		optU64s(s.DSS, s.DSSOK), optU64s(s.DBS, s.DBSOK), optU64s(s.DSB, s.DSBOK), optU64s(s.DBB, s.DBBOK))
+	var l lets
+	t := l.wrap(fmt.Sprintf("CTime %s %s %s %s %s %s %s", l.u64s(s.Vals), l.optBytes(s.SB, s.SBOK), l.optBytes(s.BB, s.BBOK),
+		l.optU64s(s.DSS, s.DSSOK), l.optU64s(s.DBS, s.DBSOK), l.optU64s(s.DSB, s.DSBOK), l.optU64s(s.DBB, s.DBBOK)))
 	w.Add(t, c, len(s.Vals) >= 2, "")
 	w.Count("kind", "time")
 	w.Count("time.len", lenClass(len(s.Vals)))
